@@ -5,11 +5,18 @@ from . import c17
 
 RULE = ("exhaustive: every shape with dimensions 0..5 and rank 1..3, unlabelled and labelled families (usize index), "
         "newtype-indexed labelled arrays where instantiated; the enumeration, two further next() calls after its end, "
-        "and (rank 1) the keys of the domain with their integer / sibling-domain round trip; logs compared exactly with "
+        "and (rank 1) the keys of the domain with their integer / sibling-domain round trip; the enumeration consumed "
+        "through nth / skip / step_by / count / last / size_hint / fold (jumps across row boundaries and past the end) "
+        "must agree with repeated next(); logs compared exactly with "
         "the model, which is proved equal to the lexicographic product; non-trivial = total cells > 1")
 NONE_KINDS = ()
 trivial = c17.trivial
-compare = c17.compare
+
+
+def compare(c, ri, rm):
+    if c.op == "arr_adapt":
+        return ("harness error: " + ri[1]) if ri[0] == "BAD" else None   # no model run: decided by the predicate
+    return c17.compare(c, ri, rm)
 
 
 def gen(rng, tier):
@@ -21,6 +28,22 @@ def gen(rng, tier):
                 code = [10, 7, 0, 0, 3, 5, 14]      # from_fn, indexes (= keys), conv + as_ref through round-tripped keys
             out.append(Case("arr_prog", "i64", fam, "-", dims, code, mop="arr",
                             mdims=[0 if fam == "unl" else 1] + dims, tag="rank%d_%s" % (len(dims), fam)))
+    # the same enumeration consumed through the Iterator methods an implementation may override
+    # (nth, skip, step_by, count, last, size_hint, fold): each must agree with repeated next()
+    for dims in c17.shapes(4 if tier == "quick" else 5):
+        total = 1
+        for d in dims:
+            total *= d
+        for fam in (c17.fams_for(dims) if max(dims) <= 4 or len(dims) == 1 else ["unl", "lab"]):
+            probes = [(4, 0), (5, 0), (6, 0), (7, 0), (7, 1)]
+            ks = sorted(set([0, 1, 2, 3, dims[-1], dims[-1] + 1, 2 * dims[-1], 2 * dims[-1] + 1, total - 1, total, total + 1])
+                        & set(range(0, total + 2)))
+            probes += [(1, k) for k in ks] + [(2, k) for k in ks if k > 0] + [(3, s) for s in (1, 2, 3, dims[-1] + 1) if s >= 1]
+            if tier == "quick" and len(dims) > 1:
+                probes = [pr for i, pr in enumerate(probes) if pr[0] in (4, 5, 6) or rng.chance(1, 2)]
+            for kind, k in probes:
+                out.append(Case("arr_adapt", "i64", fam, "-", dims, [kind, k], mop="-",
+                                tag="adaptors_rank%d_%s" % (len(dims), fam)))
     return out
 
 
@@ -31,7 +54,46 @@ def lex(dims):
     return out
 
 
+ADAPT_NAMES = {1: "nth(%d) then next()", 2: "skip(%d)", 3: "step_by(%d)", 4: "count()", 5: "last()", 6: "size_hint() then next()",
+               7: "%d x next() then fold"}
+
+
+def adapt_predicates(c, ri):
+    if ri[0] != "OK":
+        return ["index enumeration failed: %s" % (ri,)]
+    log = [int(v) for v in ri[1]]
+    kind, k = int(c.nums[0]), int(c.nums[1])
+    L = lex(c.dims)
+    flat = lambda ks: [x for t in ks for x in t]
+    tail = [-2, 1, 1]
+    if kind == 1:
+        want = (L[k] if k < len(L) else [-2]) + flat(L[k + 1:]) + tail
+    elif kind == 2:
+        want = flat(L[k:]) + tail
+    elif kind == 3:
+        want = flat(L[::max(k, 1)]) + tail
+    elif kind == 4:
+        want = [len(L)]
+    elif kind == 5:
+        want = L[-1] if L else [-2]
+    elif kind == 6:
+        lo, hi = log[0], log[1]
+        if lo > len(L) or (hi != -1 and hi < len(L)):
+            return ["indexes().size_hint() = (%d, %s) excludes the actual length %d" % (lo, hi, len(L))]
+        log = log[2:]
+        want = flat(L) + tail
+    else:
+        want = flat(L[k:])
+    if log != want:
+        name = ADAPT_NAMES[kind] % k if "%d" in ADAPT_NAMES[kind] else ADAPT_NAMES[kind]
+        return ["indexes() consumed through %s does not yield the lexicographic product of the dimensions %s: got %s, "
+                "the enumeration requires %s" % (name, c.dims, log[:30], want[:30])]
+    return []
+
+
 def predicates(c, ri, rm):
+    if c.op == "arr_adapt":
+        return adapt_predicates(c, ri)
     if ri[0] != "OK":
         return ["index enumeration failed: %s" % (ri,)]
     log = [int(v) for v in ri[1]]
